@@ -99,6 +99,26 @@ WellFormed(t, enc) ==
     ELSE IF enc = "cp1252" THEN \A i \in DOMAIN t : t[i] \notin {129, 141, 143, 144, 157}
     ELSE TRUE
 
+
+\* what src/encoding.cpp accepts (stricter: also rejects control characters) - mechanism layer only
+ImplByteOK(c, enc) ==
+    IF c \in {9, 10, 13} THEN TRUE
+    ELSE IF c < 32 \/ c = 127 THEN FALSE
+    ELSE IF enc = "latin1" THEN ~(c >= 128 /\ c <= 159)
+    ELSE IF enc = "cp1252" THEN c \notin {129, 141, 143, 144, 157}
+    ELSE TRUE
+WellFormedImpl(t, enc) ==
+    IF enc = "none" THEN TRUE
+    ELSE IF enc = "utf8" THEN /\ Utf8From(t, 1)
+                              /\ \A i \in DOMAIN t : ImplByteOK(t[i], "utf8")
+                              /\ \A i \in DOMAIN t : t[i] = 194 => At(t, i + 1) >= 160
+    ELSE \A i \in DOMAIN t : ImplByteOK(t[i], enc)
+\* validate_or_filter for the single-byte code pages: drop or replace each bad byte
+RECURSIVE EncFilter1(_, _, _, _)
+EncFilter1(t, i, enc, repl) ==
+    IF i > Len(t) THEN <<>>
+    ELSE (IF ImplByteOK(t[i], enc) THEN <<t[i]>> ELSE IF repl = 0 THEN <<>> ELSE <<repl>>) \o EncFilter1(t, i + 1, enc, repl)
+
 -----------------------------------------------------------------------------
 (* --------------------- value predicates (both layers) ------------------- *)
 IsSchemeCh(c) == IsAlnum(c) \/ c = 43 \/ c = 45 \/ c = 46
@@ -157,48 +177,62 @@ RECURSIVE AttrNameEnd(_, _)       \* ... and an attribute name additionally at '
 AttrNameEnd(t, i) == IF i > Len(t) \/ IsWs(t[i]) \/ t[i] = 47 \/ t[i] = 62 \/ t[i] = 61 THEN i
                      ELSE AttrNameEnd(t, i + 1)
 
-ValueOK(t, a, b, attr, an, R, X) ==
-    /\ \A j \in a..b : t[j] # 60 /\ t[j] # 62
-    /\ \A j \in a..b : t[j] = 38 => \E s \in FixedEnts : j + Len(s) <= b /\ MatchAt(t, j + 1, s)
-    /\ ValuePred(SubSeq(t, a, b), attr, an, R, X)
+(* Scanner results: an index > 0 = the construct ends there; a value < 0 = -reason:          *)
+(*  1 stray '>'   2 '&' that is not an allowed entity   3 comment not allowed / unterminated /   *)
+(*  with markup inside   4 tag name not white-listed (or malformed tag)   5 tag form does not   *)
+(*  fit its kind   6 attribute not white-listed for the tag / duplicated / malformed            *)
+(*  7 value unquoted or unterminated   8 value contains '<' '>' or a bare '&'                   *)
+(*  9 value fails its boolean / integer / expression predicate   10 URI scheme not allowed      *)
+(*  11 relative reference where only absolute URIs are allowed                                  *)
+ValueFail(t, a, b, attr, an, R, X) ==      \* 0 = fine, else reason
+    IF \E j \in a..b : t[j] = 60 \/ t[j] = 62 THEN 8
+    ELSE IF \E j \in a..b : t[j] = 38 /\ ~(\E s \in FixedEnts : j + Len(s) <= b /\ MatchAt(t, j + 1, s)) THEN 8
+    ELSE LET v == SubSeq(t, a, b) IN
+         IF attr.t \in {"uri", "rel", "abs"}
+         THEN LET s == BrowserScheme(v) IN
+              CASE attr.t = "uri" -> IF s = <<>> \/ s \in ToSet(attr.sch) THEN 0 ELSE 10
+                [] attr.t = "rel" -> IF s = <<>> THEN 0 ELSE 10
+                [] OTHER          -> IF s = <<>> THEN 11 ELSE IF s \in ToSet(attr.sch) THEN 0 ELSE 10
+         ELSE IF ValuePred(v, attr, an, R, X) THEN 0 ELSE 9
 
-RECURSIVE AttrsEnd(_, _, _, _, _, _)   \* index of the tag's '>' or 0
+RECURSIVE AttrsEnd(_, _, _, _, _, _)   \* index of the tag's '>' or -reason
 AttrsEnd(t, q0, R, tag, seen, X) ==
     LET q == SkipWs(t, q0)
     IN IF At(t, q) = 62 THEN q
        ELSE IF At(t, q) = 47 /\ At(t, q + 1) = 62 THEN q + 1
-       ELSE IF q > Len(t) THEN 0
+       ELSE IF q > Len(t) THEN -4
        ELSE LET ne == AttrNameEnd(t, q)
                 an == SubSeq(t, q, ne - 1)
                 ai == AttrIdx(tag, an, R.xhtml)
-            IN IF ne = q \/ ai = 0 \/ (\E s \in seen : NameEq(s, an, R.xhtml)) THEN 0
+            IN IF ne = q \/ ai = 0 \/ (\E s \in seen : NameEq(s, an, R.xhtml)) THEN -6
                ELSE LET a  == tag.attrs[ai]
                         q3 == SkipWs(t, ne)
                     IN IF At(t, q3) = 61
                        THEN LET q4 == SkipWs(t, q3 + 1)
                                 qc == At(t, q4)
                                 q5 == IF qc = 34 \/ qc = 39 THEN FindByte(t, q4 + 1, qc) ELSE 0
-                            IN IF q5 = 0 THEN 0                       \* unquoted / unterminated value
-                               ELSE IF ~ValueOK(t, q4 + 1, q5 - 1, a, an, R, X) THEN 0
-                               ELSE AttrsEnd(t, q5 + 1, R, tag, seen \cup {an}, X)
+                            IN IF q5 = 0 THEN -7                      \* unquoted / unterminated value
+                               ELSE LET f == ValueFail(t, q4 + 1, q5 - 1, a, an, R, X)
+                                    IN IF f # 0 THEN -f
+                                       ELSE AttrsEnd(t, q5 + 1, R, tag, seen \cup {an}, X)
                        ELSE IF a.t = "bool" THEN AttrsEnd(t, ne, R, tag, seen \cup {an}, X)
-                       ELSE 0
+                       ELSE -9
 
 TagEnd(t, i, R, X) ==             \* t[i] = '<' and not a comment opener
     LET closing == At(t, i + 1) = 47
         p  == IF closing THEN i + 2 ELSE i + 1
         ne == NameEnd(t, p)
         ti == TagIdx(R, SubSeq(t, p, ne - 1))
-    IN IF ne = p \/ ti = 0 THEN 0
+    IN IF ne = p \/ ti = 0 THEN -4
        ELSE LET tag == R.tags[ti]
-            IN IF tag.k = 0 THEN 0
+            IN IF tag.k = 0 THEN -4
                ELSE IF closing
-               THEN LET q == SkipWs(t, ne) IN IF At(t, q) = 62 /\ tag.k \in {1, 3} THEN q ELSE 0
+               THEN LET q == SkipWs(t, ne) IN IF At(t, q) # 62 THEN -4 ELSE IF tag.k \in {1, 3} THEN q ELSE -5
                ELSE LET e == AttrsEnd(t, ne, R, tag, {}, X)
-                    IN IF e = 0 THEN 0
+                    IN IF e < 0 THEN e
                        ELSE IF t[e - 1] = 47 /\ e - 1 >= ne      \* "/>" form
-                            THEN (IF tag.k \in {2, 3} THEN e ELSE 0)
-                            ELSE (IF R.xhtml /\ tag.k = 2 THEN 0 ELSE e)
+                            THEN (IF tag.k \in {2, 3} THEN e ELSE -5)
+                            ELSE (IF R.xhtml /\ tag.k = 2 THEN -5 ELSE e)
 
 RECURSIVE FindCmtEnd(_, _)        \* first k >= i with t[k..k+2] = "-->", 0 if none
 FindCmtEnd(t, i) == IF i + 2 > Len(t) THEN 0
@@ -207,21 +241,22 @@ FindCmtEnd(t, i) == IF i + 2 > Len(t) THEN 0
 ConstructEnd(t, i, R, X) ==
     IF At(t, i + 1) = 33 /\ At(t, i + 2) = 45 /\ At(t, i + 3) = 45
     THEN LET k == FindCmtEnd(t, i + 4)
-         IN IF k = 0 \/ ~R.comments THEN 0
-            ELSE IF \E j \in (i + 4)..(k - 1) : t[j] \in {60, 62, 38} THEN 0
+         IN IF k = 0 \/ ~R.comments THEN -3
+            ELSE IF \E j \in (i + 4)..(k - 1) : t[j] \in {60, 62, 38} THEN -3
             ELSE k + 2
     ELSE TagEnd(t, i, R, X)
 
-RECURSIVE Safe(_, _, _, _)
-Safe(t, i, R, X) ==
-    IF i > Len(t) THEN TRUE
+\* 0 = every '<' '>' '&' lies inside an allowed construct; else reason * 100000 + position
+RECURSIVE Scan(_, _, _, _)
+Scan(t, i, R, X) ==
+    IF i > Len(t) THEN 0
     ELSE LET c == t[i]
-         IN IF c = 62 THEN FALSE
-            ELSE IF c = 38 THEN (LET e == EntityEnd(t, i, R) IN e > 0 /\ Safe(t, e + 1, R, X))
-            ELSE IF c = 60 THEN (LET e == ConstructEnd(t, i, R, X) IN e > 0 /\ Safe(t, e + 1, R, X))
-            ELSE Safe(t, i + 1, R, X)
+         IN IF c = 62 THEN 100000 + i
+            ELSE IF c = 38 THEN (LET e == EntityEnd(t, i, R) IN IF e > 0 THEN Scan(t, e + 1, R, X) ELSE 200000 + i)
+            ELSE IF c = 60 THEN (LET e == ConstructEnd(t, i, R, X) IN IF e > 0 THEN Scan(t, e + 1, R, X) ELSE (-e) * 100000 + i)
+            ELSE Scan(t, i + 1, R, X)
 
-Dangerous(t, R, X) == ~Safe(t, 1, R, X)
+Dangerous(t, R, X) == Scan(t, 1, R, X) # 0
 
 -----------------------------------------------------------------------------
 (* --------------- MECHANISM LAYER: the algorithm of xss.cpp -------------- *)
